@@ -11,6 +11,9 @@ def T(params, ret, abi="Rust", unsafe=False, judged=True, note=""):
     return {"abi": abi, "unsafe": unsafe, "params": params, "ret": ret, "judged": judged, "note": note}
 
 
+HM = "&std::collections::HashMap<String, Vec<u8>>"
+LONGP = [HM] * 7
+
 FAMILY = [
     T(["i32", "&mut i32"], "bool", note="base"),
     T(["i32"], "bool", note="arity-1"),
@@ -38,13 +41,19 @@ FAMILY = [
     T([], "ns2::Tok", note="return: same type name, module ns2"),
     T(["&std::io::Error"], "bool", note="io::Error"),
     T(["&std::fmt::Error"], "bool", note="fmt::Error"),
+    # long signatures (type names well beyond 160 / 256 characters) that differ only near the end
+    T(LONGP + ["i32"], "bool", note="long, base"),
+    T(LONGP + ["i64"], "bool", note="long, differs in the last parameter"),
+    T(LONGP + ["i32"], "u8", note="long, differs in the return type"),
+    T(LONGP + ["&mut i32"], "bool", note="long, last parameter &mut"),
+    T(LONGP + ["&i32"], "bool", note="long, last parameter &"),
     T(["&'static str"], "bool", judged=False, note="lifetime spelling 'static"),
     T(["&str"], "bool", judged=False, note="lifetime spelling elided"),
 ]
 
 DEFAULTS = {"ns1::Tok": "ns1::Tok(0)", "ns2::Tok": "ns2::Tok(0)", "bool": "false", "u8": "0", "()": "()", "i32": "0", "Option<bool>": "None"}
 FAKE_RET = {"ns1::Tok": "ns1::Tok(1)", "ns2::Tok": "ns2::Tok(1)", "bool": "true", "u8": "1", "()": "()", "i32": "1", "Option<bool>": "Some(true)"}
-ARGS = {"ns1::Tok": "ns1::Tok(5)", "ns2::Tok": "ns2::Tok(5)", "&std::io::Error": "&std::io::Error::from_raw_os_error(1)",
+ARGS = {HM: "&hm", "ns1::Tok": "ns1::Tok(5)", "ns2::Tok": "ns2::Tok(5)", "&std::io::Error": "&std::io::Error::from_raw_os_error(1)",
         "&std::fmt::Error": "&std::fmt::Error", "i32": "1", "&mut i32": "&mut m", "u8": "2", "i64": "3", "&i32": "&r", "*mut i32": "&mut m as *mut i32", "u32": "4",
         "&mut i64": "&mut m64", "*const i32": "&r as *const i32", "&'static str": "\"s\"", "&str": "\"s\""}
 
@@ -123,7 +132,7 @@ def rust():
                 o.append("        (%d, \"fake\") => { let (p, v) = injectorpp::fake!(func_type: %s, returns: { MARK.store(%d, SeqCst); %s }); Some((p, Some(v))) }" % (k, ft, 400 + k, FAKE_RET[t["ret"]]))
     o.append("        _ => None,\n    }\n}")
     # callers
-    o.append("pub fn sig_call(k: usize) -> u32 {\n    let mut m: i32 = 0; let mut m64: i64 = 0; let r: i32 = 0;\n    MARK.store(0, SeqCst);\n    match k {")
+    o.append("pub fn sig_call(k: usize) -> u32 {\n    let mut m: i32 = 0; let mut m64: i64 = 0; let r: i32 = 0; let hm: std::collections::HashMap<String, Vec<u8>> = Default::default();\n    MARK.store(0, SeqCst);\n    match k {")
     for k, t in enumerate(FAMILY):
         args = ", ".join(ARGS[p] for p in t["params"])
         call = "std::hint::black_box(sig_t%d as %s)(%s)" % (k, type_str(t), args)
